@@ -288,6 +288,18 @@ func c04Run(c *core.Ctx, r *core.Result, ch c04Chain) {
 						exp.add(t.Input.Address, dst, amt)
 					}
 				} else {
+					var outSum uint64
+					wrapped := false
+					for _, o := range t.Transfers {
+						if outSum+o.Amount < outSum {
+							wrapped = true
+						}
+						outSum += o.Amount
+					}
+					if wrapped || outSum != t.Input.Amount {
+						r.Violate(core.Violation{Key: key, Signature: "C04:executed-transfer-credits-more-than-it-debits:" + c04Class(ch.name, era, h),
+							Desc: fmt.Sprintf("chain %s, height %d: an executed transfer debits %d and its outputs do not sum to that in exact arithmetic", ch.name, h, t.Input.Amount)})
+					}
 					for _, o := range t.Transfers {
 						destroyed := (o.Address == newBurn && h >= era.V202) || (o.Address == oldBurn && h < era.V202)
 						if !destroyed {
